@@ -322,3 +322,21 @@ def _return_hint_reduction(ctx):
     finally:
         F.stubs.clear()
         F.stubs.update(saved_stubs)
+
+
+def wrapper_kind(ctx, RULE):
+    """The generated wrapper is the kind of callable the decorated callable is (shared with C04: a plain closure around a
+    generator must not become a generator)."""
+    ctx.rule(RULE, 'the generated wrapper is the same kind of callable (plain / coroutine / generator / async generator) as '
+             'the callable that was decorated — decided from the decorated callable\'s own code object, also when it is a '
+             'functools.wraps adapter of another kind or carries kind-neutral code flags')
+    agg = {}
+    for f, r, facts in _wrap.wrappers(ctx):
+        if not r.code or facts is None or not facts.ok:
+            continue
+        a = agg.setdefault(f'kind:{f.kind}', [0, None])
+        a[0] += 1
+        if facts.kind != f.kind and a[1] is None:
+            a[1] = f'{f.describe()}: wrapper is {facts.kind}'
+    for k, (n, why) in sorted(agg.items()):
+        ctx.ob(RULE, k, DECOR, f'{k} holds for {n} generated wrappers', why is None, why or '')
